@@ -38,6 +38,11 @@ pub struct Cfg {
     /// all others in the store (the one shown for consent must still be the one that signs)
     #[serde(default)]
     pub store_changes_during_prompt: bool,
+    /// authenticator-API configurations only: before the judged ceremony the same authenticator serves a verified
+    /// assertion for another RP while its user verification is still configured (whatever it learnt then must not
+    /// outlive a change of the capability)
+    #[serde(default)]
+    pub warmed_up: bool,
 }
 
 fn late_credential() -> Passkey {
@@ -85,6 +90,8 @@ fn contents(matching: bool) -> Vec<Passkey> {
 pub struct Outcome {
     /// Ok((flags, credential id used/created)) or Err(status byte / error text)
     pub result: Result<(u8, Vec<u8>), String>,
+    /// the store right before the judged ceremony (after the warm-up, if any)
+    pub store_before: Vec<PkSnap>,
     pub store_after: Vec<PkSnap>,
     pub uv_calls: Vec<crate::rt::UvCall>,
 }
@@ -97,6 +104,8 @@ pub fn execute(c: &Cfg, matching: bool) -> Result<Outcome, String> {
         uv.on_next_check(move || s2.prepend(late_credential()));
     }
     let auth = cer::build_authenticator(store.clone(), uv.clone(), &AuthCfg { counter: true, ..Default::default() });
+    #[allow(unused_assignments)]
+    let mut store_before: Vec<PkSnap> = store.creds().iter().map(snap).collect();
     let exclude = c.exclude_list.then(|| vec![cer::descriptor(b"matching-cred-0001"), cer::descriptor(b"never-seen")]);
     let pin = c.pin_auth.then(|| vec![1u8; 16].into());
     let result: Result<(u8, Vec<u8>), String> = if let Some(req) = c.client_uv_req {
@@ -126,6 +135,16 @@ pub fn execute(c: &Cfg, matching: bool) -> Result<Outcome, String> {
         }
     } else {
         let mut auth = auth;
+        if c.warmed_up {
+            // a verified assertion for the other RP while verification is configured, then the capability becomes
+            // what the configuration says
+            uv.set(UvScript::verified());
+            let warm = get_assertion::Request { rp_id: "other.example.org".into(), client_data_hash: vec![9u8; 32].into(), allow_list: None, extensions: None, options: get_assertion::Options { rk: false, up: true, uv: true }, pin_auth: None, pin_protocol: None };
+            let _ = block_on(auth.get_assertion(warm));
+            uv.set(c.script.clone());
+            uv.log.lock().unwrap().clear();
+            store_before = store.creds().iter().map(snap).collect();
+        }
         if c.create {
             let req = make_credential::Request {
                 client_data_hash: vec![1u8; 32].into(),
@@ -138,7 +157,11 @@ pub fn execute(c: &Cfg, matching: bool) -> Result<Outcome, String> {
                 pin_auth: pin,
                 pin_protocol: c.pin_auth.then_some(1),
             };
-            let req = through_wire(req, 0x07, c.wire)?;
+            let req = match through_wire(req, 0x07, c.wire) {
+                Ok(r) => r,
+                // whether such an encoding decodes at all is C13's business; nothing to judge about consent then
+                Err(e) => return Ok(Outcome { result: Err(format!("not-decodable: {e}")), store_before: store_before.clone(), store_after: store.creds().iter().map(snap).collect(), uv_calls: vec![] }),
+            };
             let r = std::panic::catch_unwind(std::panic::AssertUnwindSafe(|| block_on(auth.make_credential(req)))).map_err(|_| format!("make_credential panicked: {}", crate::last_panic()))?;
             match r {
                 Ok(resp) => {
@@ -158,7 +181,10 @@ pub fn execute(c: &Cfg, matching: bool) -> Result<Outcome, String> {
                 pin_auth: pin,
                 pin_protocol: c.pin_auth.then_some(1),
             };
-            let req = through_wire(req, 0x05, c.wire)?;
+            let req = match through_wire(req, 0x05, c.wire) {
+                Ok(r) => r,
+                Err(e) => return Ok(Outcome { result: Err(format!("not-decodable: {e}")), store_before: store_before.clone(), store_after: store.creds().iter().map(snap).collect(), uv_calls: vec![] }),
+            };
             let r = std::panic::catch_unwind(std::panic::AssertUnwindSafe(|| block_on(auth.get_assertion(req)))).map_err(|_| format!("get_assertion panicked: {}", crate::last_panic()))?;
             match r {
                 Ok(resp) => {
@@ -170,22 +196,26 @@ pub fn execute(c: &Cfg, matching: bool) -> Result<Outcome, String> {
             }
         }
     };
-    Ok(Outcome { result, store_after: store.creds().iter().map(snap).collect(), uv_calls: uv.calls() })
+    Ok(Outcome { result, store_before, store_after: store.creds().iter().map(snap).collect(), uv_calls: uv.calls() })
 }
 
 pub fn check(ctx: &mut Ctx, c: &Cfg) -> Result<(), String> {
     ctx.eval();
     ctx.nontrivial(c);
     let out = execute(c, c.matching)?;
+    if matches!(&out.result, Err(e) if e.starts_with("not-decodable")) {
+        ctx.measure("requests whose CBOR encoding with default options left out does not decode (C13's matter)", 1);
+        return Ok(());
+    }
     // what the store holds apart from the ceremony's own effect (the late credential arrives when the user is asked)
-    let expected_before = |matching: bool, asked: bool| -> Vec<PkSnap> {
-        let mut v: Vec<PkSnap> = contents(matching).iter().map(snap).collect();
+    let expected_before = |base: &[PkSnap], asked: bool| -> Vec<PkSnap> {
+        let mut v: Vec<PkSnap> = base.to_vec();
         if c.store_changes_during_prompt && asked {
             v.insert(0, snap(&late_credential()));
         }
         v
     };
-    let before: Vec<PkSnap> = expected_before(c.matching, !out.uv_calls.is_empty());
+    let before: Vec<PkSnap> = expected_before(&out.store_before, !out.uv_calls.is_empty());
     // options as the authenticator sees them
     let (up, uv) = match c.client_uv_req {
         Some(r) => (true, r % 3 != 2),
@@ -237,7 +267,7 @@ pub fn check(ctx: &mut Ctx, c: &Cfg) -> Result<(), String> {
                 if other.result != out.result {
                     return Err(format!("while consent is missing the outcome depends on whether a matching credential exists: {:?} (matching={}) vs {:?} (matching={})", out.result, c.matching, other.result, !c.matching));
                 }
-                let other_before: Vec<PkSnap> = expected_before(!c.matching, !other.uv_calls.is_empty());
+                let other_before: Vec<PkSnap> = expected_before(&other.store_before, !other.uv_calls.is_empty());
                 if other.store_after != other_before {
                     return Err("the ceremony failed for lack of consent but the store changed (other store content)".into());
                 }
@@ -268,10 +298,10 @@ pub fn all_configs() -> Vec<Cfg> {
                                 for &wire in wires {
                                     if create {
                                         for exclude_list in [false, true] {
-                                            v.push(Cfg { create, rk: bits & 1 != 0, up: bits & 2 != 0, uv: bits & 4 != 0, script: script.clone(), pin_auth, matching, exclude_list, client_uv_req: None, wire, store_changes_during_prompt: false });
+                                            v.push(Cfg { create, rk: bits & 1 != 0, up: bits & 2 != 0, uv: bits & 4 != 0, script: script.clone(), pin_auth, matching, exclude_list, client_uv_req: None, wire, store_changes_during_prompt: false, warmed_up: false });
                                         }
                                     } else {
-                                        v.push(Cfg { create, rk: bits & 1 != 0, up: bits & 2 != 0, uv: bits & 4 != 0, script: script.clone(), pin_auth, matching, exclude_list: false, client_uv_req: None, wire, store_changes_during_prompt: false });
+                                        v.push(Cfg { create, rk: bits & 1 != 0, up: bits & 2 != 0, uv: bits & 4 != 0, script: script.clone(), pin_auth, matching, exclude_list: false, client_uv_req: None, wire, store_changes_during_prompt: false, warmed_up: false });
                                     }
                                 }
                             }
@@ -289,7 +319,23 @@ pub fn all_configs() -> Vec<Cfg> {
                     for pin_auth in [false, true] {
                         for matching in [false, true] {
                             let script = UvScript { presence_enabled: pe, verification_enabled: ve, outcome: *o, yields: 0 };
-                            v.push(Cfg { create: false, rk: bits & 1 != 0, up: bits & 2 != 0, uv: bits & 4 != 0, script, pin_auth, matching, exclude_list: false, client_uv_req: None, wire: 0, store_changes_during_prompt: true });
+                            v.push(Cfg { create: false, rk: bits & 1 != 0, up: bits & 2 != 0, uv: bits & 4 != 0, script, pin_auth, matching, exclude_list: false, client_uv_req: None, wire: 0, store_changes_during_prompt: true, warmed_up: false });
+                        }
+                    }
+                }
+            }
+        }
+    }
+    // verification requested from an authenticator whose verification is absent or unconfigured *now*, after the same
+    // authenticator served a verified ceremony while it was still configured
+    for create in [true, false] {
+        for bits in [4u8, 5, 6, 7] {
+            for ve in [None, Some(false)] {
+                for pe in [false, true] {
+                    for o in &outcomes {
+                        for matching in [false, true] {
+                            let script = UvScript { presence_enabled: pe, verification_enabled: ve, outcome: *o, yields: 0 };
+                            v.push(Cfg { create, rk: bits & 1 != 0, up: bits & 2 != 0, uv: true, script, pin_auth: false, matching, exclude_list: false, client_uv_req: None, wire: 0, store_changes_during_prompt: false, warmed_up: true });
                         }
                     }
                 }
@@ -304,7 +350,7 @@ pub fn all_configs() -> Vec<Cfg> {
                     for matching in [false, true] {
                         for rk in [false, true] {
                             let script = UvScript { presence_enabled: true, verification_enabled: ve, outcome: *o, yields: 0 };
-                            v.push(Cfg { create, rk, up: true, uv: req != 2, script, pin_auth: false, matching, exclude_list: create && matching, client_uv_req: Some(req), wire: 0, store_changes_during_prompt: false });
+                            v.push(Cfg { create, rk, up: true, uv: req != 2, script, pin_auth: false, matching, exclude_list: create && matching, client_uv_req: Some(req), wire: 0, store_changes_during_prompt: false, warmed_up: false });
                         }
                     }
                 }
@@ -315,7 +361,7 @@ pub fn all_configs() -> Vec<Cfg> {
 }
 
 pub fn run(ctx: &mut Ctx) {
-    ctx.rule = "complete product: operation (create/assert) x requested rk,up,uv (8) x verification capability (none, unconfigured, configured) x presence capability (2) x user-validation outcome (4 presence/verification results + 3 error codes) x pin-auth (2) x request handed over as a value / through its CBOR encoding with default-valued options omitted (and the emptied options map omitted) x store content (matching credentials present/absent; for assertions also with a further credential of the RP put in front of the others while the user is being asked; create: exclude list absent/naming a held credential), each on a fresh authenticator with call-logging doubles; plus the same through Client (UV requirement x capability x outcome x content x rk). Every configuration is distinct and non-trivial.".into();
+    ctx.rule = "complete product: operation (create/assert) x requested rk,up,uv (8) x verification capability (none, unconfigured, configured) x presence capability (2) x user-validation outcome (4 presence/verification results + 3 error codes) x pin-auth (2) x request handed over as a value / through its CBOR encoding with default-valued options omitted (and the emptied options map omitted) x store content (matching credentials present/absent; for assertions also with a further credential of the RP put in front of the others while the user is being asked; create: exclude list absent/naming a held credential), each on a fresh authenticator (and, for verification requests without the capability, also on one that served a verified ceremony while the capability was still configured) with call-logging doubles; plus the same through Client (UV requirement x capability x outcome x content x rk); plus assertions on a store whose items convert into passkeys fallibly (1-3 items x convertible or not x allow list shapes): the item shown must be the credential that signs. Every configuration is distinct and non-trivial.".into();
     ctx.exhaustive = Some(true);
     ctx.assumptions = vec![
         "'consent is missing' = verification requested without configured capability, or create with up=false, or the validation step returned an error, or it did not report a presence/verification that was requested".into(),
@@ -329,9 +375,135 @@ pub fn run(ctx: &mut Ctx) {
             ctx.violation(if c.client_uv_req.is_some() { "product-client" } else { "product" }, json!(c), &e);
         }
     }
+    // a store whose items are not plain passkeys: 1-3 items, each convertible or not, allow list absent / all / all but the first
+    for items in 0..3u8 {
+        for readable in 0..8u8 {
+            for allow in 0..3u8 {
+                let c = VaultCase { items, readable, allow };
+                ctx.sample("vault", || json!(c));
+                if let Err(e) = check_vault(ctx, &c) {
+                    ctx.violation("vault", json!(c), &e);
+                }
+            }
+        }
+    }
 }
 
-pub fn replay(ctx: &mut Ctx, _stage: &str, case: &Value) -> Result<(), String> {
+// ------------------------------------------------------------------ stores whose items are not plain passkeys
+
+/// what a vault-like store hands out: an item that may or may not convert into a passkey (locked, other kind of item)
+#[derive(Clone, Debug)]
+pub struct VaultItem {
+    pk: Passkey,
+    readable: bool,
+}
+
+impl TryFrom<VaultItem> for Passkey {
+    type Error = ();
+    fn try_from(v: VaultItem) -> Result<Passkey, ()> {
+        if v.readable {
+            Ok(v.pk)
+        } else {
+            Err(())
+        }
+    }
+}
+
+#[derive(Clone)]
+struct VaultStore(std::sync::Arc<std::sync::Mutex<Vec<VaultItem>>>);
+
+#[async_trait::async_trait]
+impl passkey_authenticator::CredentialStore for VaultStore {
+    type PasskeyItem = VaultItem;
+    async fn find_credentials(&self, ids: Option<&[passkey_types::webauthn::PublicKeyCredentialDescriptor]>, rp_id: &str) -> Result<Vec<VaultItem>, passkey_types::ctap2::StatusCode> {
+        let v: Vec<VaultItem> = self.0.lock().unwrap().iter().filter(|i| i.pk.rp_id == rp_id && ids.map_or(true, |l| l.iter().any(|d| d.id.as_slice() == i.pk.credential_id.as_slice()))).cloned().collect();
+        if v.is_empty() {
+            Err(passkey_types::ctap2::Ctap2Error::NoCredentials.into())
+        } else {
+            Ok(v)
+        }
+    }
+    async fn save_credential(&mut self, cred: Passkey, _user: make_credential::PublicKeyCredentialUserEntity, _rp: make_credential::PublicKeyCredentialRpEntity, _options: get_assertion::Options) -> Result<(), passkey_types::ctap2::StatusCode> {
+        self.0.lock().unwrap().push(VaultItem { pk: cred, readable: true });
+        Ok(())
+    }
+    async fn update_credential(&mut self, cred: Passkey) -> Result<(), passkey_types::ctap2::StatusCode> {
+        for i in self.0.lock().unwrap().iter_mut() {
+            if i.pk.credential_id == cred.credential_id {
+                i.pk = cred.clone();
+            }
+        }
+        Ok(())
+    }
+    async fn get_info(&self) -> passkey_authenticator::StoreInfo {
+        passkey_authenticator::StoreInfo { discoverability: passkey_authenticator::DiscoverabilitySupport::ForcedDiscoverable }
+    }
+}
+
+#[derive(Clone)]
+struct VaultUv {
+    shown: std::sync::Arc<std::sync::Mutex<Vec<Option<Vec<u8>>>>>,
+}
+
+#[async_trait::async_trait]
+impl passkey_authenticator::UserValidationMethod for VaultUv {
+    type PasskeyItem = VaultItem;
+    async fn check_user<'a>(&self, credential: Option<&'a VaultItem>, _presence: bool, _verification: bool) -> Result<passkey_authenticator::UserCheck, passkey_types::ctap2::Ctap2Error> {
+        self.shown.lock().unwrap().push(credential.map(|c| c.pk.credential_id.to_vec()));
+        Ok(passkey_authenticator::UserCheck { presence: true, verification: true })
+    }
+    fn is_presence_enabled(&self) -> bool {
+        true
+    }
+    fn is_verification_enabled(&self) -> Option<bool> {
+        Some(true)
+    }
+}
+
+/// items of the RP in store order (bit i of `readable` = item i converts into a passkey), allow list 0 absent / 1 all / 2 all but the first
+#[derive(Clone, Debug, Serialize, Deserialize, PartialEq, Eq, Hash)]
+pub struct VaultCase {
+    pub items: u8,
+    pub readable: u8,
+    pub allow: u8,
+}
+
+pub fn check_vault(ctx: &mut Ctx, c: &VaultCase) -> Result<(), String> {
+    ctx.eval();
+    ctx.nontrivial(c);
+    let n = 1 + (c.items as usize % 3);
+    let items: Vec<VaultItem> = (0..n).map(|k| VaultItem { pk: make_passkey(70 + k as u64, RP, format!("vault-item-{k}").as_bytes(), Some(b"uh"), Some(3), None), readable: c.readable & (1 << k) != 0 }).collect();
+    let store = VaultStore(std::sync::Arc::new(std::sync::Mutex::new(items.clone())));
+    let uv = VaultUv { shown: Default::default() };
+    let mut auth = passkey_authenticator::Authenticator::new(passkey_types::ctap2::Aaguid::new_empty(), store, uv.clone());
+    let allow = match c.allow % 3 {
+        0 => None,
+        1 => Some(items.iter().map(|i| cer::descriptor(&i.pk.credential_id)).collect::<Vec<_>>()),
+        _ => Some(items.iter().skip(1).map(|i| cer::descriptor(&i.pk.credential_id)).collect::<Vec<_>>()),
+    };
+    let req = get_assertion::Request { rp_id: RP.into(), client_data_hash: vec![4u8; 32].into(), allow_list: allow, extensions: None, options: get_assertion::Options { rk: false, up: true, uv: true }, pin_auth: None, pin_protocol: None };
+    let res = std::panic::catch_unwind(std::panic::AssertUnwindSafe(|| block_on(auth.get_assertion(req)))).map_err(|_| format!("get_assertion panicked: {}", crate::last_panic()))?;
+    let shown = uv.shown.lock().unwrap().clone();
+    ctx.class(&format!("vault/{}", if res.is_ok() { "assertion" } else { "error" }));
+    if let Ok(r) = res {
+        let signer = r.credential.as_ref().map(|d| d.id.to_vec()).ok_or("no credential in the response")?;
+        if shown.is_empty() {
+            return Err("an assertion was signed without consulting the user".into());
+        }
+        for s in &shown {
+            if s.as_deref() != Some(signer.as_slice()) {
+                return Err(format!("the item shown to the user ({:?}) is not the credential that signed ({:?})", s.as_ref().map(|b| String::from_utf8_lossy(b).to_string()), String::from_utf8_lossy(&signer)));
+            }
+        }
+    }
+    Ok(())
+}
+
+pub fn replay(ctx: &mut Ctx, stage: &str, case: &Value) -> Result<(), String> {
+    if stage == "vault" {
+        let c: VaultCase = serde_json::from_value(case.clone()).map_err(|e| format!("bad case: {e}"))?;
+        return check_vault(ctx, &c);
+    }
     let c: Cfg = serde_json::from_value(case.clone()).map_err(|e| format!("bad case: {e}"))?;
     check(ctx, &c)
 }
